@@ -76,8 +76,8 @@ package ice
 //@   props C16 C20
 //@   modifies a.Value
 //@   ensures missing: !attrHas(m, attrType) ==> result != nil
-//@   ensures too-short: attrHas(m, attrType) && attrLen(m, attrType) < 4 ==> result != nil
-//@   ensures decodes-24-bit: attrHas(m, attrType) && attrLen(m, attrType) >= 4 ==> result == nil && a.Value == 65536*attrByte(m, attrType, 1) + 256*attrByte(m, attrType, 2) + attrByte(m, attrType, 3)
+//@   ensures wrong-size-rejected: attrHas(m, attrType) && attrLen(m, attrType) != 4 ==> result != nil
+//@   ensures decodes-24-bit: attrHas(m, attrType) && attrLen(m, attrType) == 4 ==> result == nil && a.Value == 65536*attrByte(m, attrType, 1) + 256*attrByte(m, attrType, 2) + attrByte(m, attrType, 3)
 //@   ensures error-keeps-value: result != nil ==> a.Value == old(a.Value)
 
 //@ func (DtlsInStunAttribute).AddTo
@@ -129,4 +129,15 @@ package ice
 //@   site call readCandidateByteString#1 ghost k := result0
 //@   site call readCandidateByteString#1 ghost v := ""
 //@   site call readCandidateByteString#2 ghost v := result0
+//@   loop 1 invariant position-in-range: 0 <= i
 //@   loop 1 invariant every-pair-but-exactly-tcptype-becomes-an-extension: (k == "tcptype" && len(extensions) == n0 && rawTCPTypeRaw == v) || (k != "tcptype" && len(extensions) == n0 + 1 && rawTCPTypeRaw == r0 && (n0 >= 0 ==> extensions[n0].Key == k && extensions[n0].Value == v))
+
+// byte-string = 1*(%x01-09/%x0B-0C/%x0E-FF): the token reader works on BYTES (multi-byte UTF-8 is
+// grammar-valid), stops at the first space, and refuses exactly NUL, LF and CR.
+//@ func readCandidateByteString
+//@   props C16
+//@   requires in-range: 0 <= start && start <= len(raw)
+//@   loop 1 invariant scanned-bytes-are-token-bytes: start <= i && i <= len(raw) && forall j int :: start <= j && j < i ==> raw[j] != 0 && raw[j] != 10 && raw[j] != 13 && raw[j] != 32
+//@   ensures refuses-only-nul-lf-cr: result2 != nil ==> exists j int :: start <= j && j < len(raw) && (raw[j] == 0 || raw[j] == 10 || raw[j] == 13)
+//@   ensures token-has-none-of-the-excluded-bytes: result2 == nil ==> len(result0) <= len(raw) - start && forall j int :: start <= j && j < start + len(result0) ==> raw[j] != 0 && raw[j] != 10 && raw[j] != 13 && raw[j] != 32
+//@   ensures next-position-is-after-the-separator-or-the-end: result2 == nil ==> (result1 == start + len(result0) + 1 && result1 <= len(raw) && raw[result1 - 1] == 32) || (result1 == len(raw) && start + len(result0) == len(raw))
